@@ -404,6 +404,14 @@ fn halfway_case() -> impl Strategy<Value = Case> {
             let (digits, scale) = round_sig(&ip, &fp, k, up);
             Case::Float { single: true, lit: render(neg, &digits, scale, &Style::plain()), halfway: true }
         }),
+        // the same for moderate magnitudes (2^-10 .. 2^30) in plain notation, mostly unsigned:
+        // the shape for which float readers take a "few digits, no exponent" shortcut
+        (117u32..158, any::<u32>(), 9usize..=17, any::<bool>(), prop_oneof![3 => Just(false), 1 => Just(true)]).prop_map(|(e, m, k, up, neg)| {
+            let bits = (e << 23) | (m & 0x007F_FFFF);
+            let (ip, fp) = midpoint_f32(bits);
+            let (digits, scale) = round_sig(&ip, &fp, k, up);
+            Case::Float { single: true, lit: render(neg, &digits, scale, &Style::plain()), halfway: true }
+        }),
         (f64_pattern(), 15usize..=30, any::<bool>(), any::<bool>(), style()).prop_map(|(bits, k, up, neg, st)| {
             let (ip, fp) = midpoint_f64(bits);
             let (digits, scale) = round_sig(&ip, &fp, k, up);
@@ -505,6 +513,19 @@ fn case_strategy() -> impl Strategy<Value = Case> {
         30 => halfway_case(),
         20 => (any::<bool>(), wide_literal()).prop_map(|(single, lit)| Case::Float { single, lit, halfway: false }),
         12 => printed_float_case(),
+        // short literals: at most 19 digits, small or no exponent (the range of the readers' shortcuts)
+        10 => (any::<bool>(), prop_oneof![3 => Just(false), 1 => Just(true)], "[0-9]{1,19}", 0u32..22, prop_oneof![2 => Just(None), 1 => (-30i32..=30).prop_map(Some)]).prop_map(|(single, neg, digits, scale, exp)| {
+            let scale = scale.min(digits.len() as u32 + 2);
+            let mut st = Style::plain();
+            let lit = match exp {
+                None => render(neg, &digits, scale, &st),
+                Some(x) => {
+                    st.exp_shift = x;
+                    render(neg, &digits, scale, &st)
+                }
+            };
+            Case::Float { single, lit, halfway: false }
+        }),
         3 => (any::<bool>(), zero_literal()).prop_map(|(single, lit)| Case::Float { single, lit, halfway: false }),
         6 => (any::<bool>(), float_word()).prop_map(|(single, word)| Case::FloatWord { single, word }),
         8 => bool_lit().prop_map(|lit| Case::BoolLit { lit }),
